@@ -39,9 +39,12 @@ TRUSTED_BASE = [
   'Coq 8.16.1 kernel incl. the vm_compute virtual machine (no native_compute)',
   'axioms (stdlib/Coquelicot only, as printed by Print Assumptions): ClassicalDedekindReals.sig_forall_dec, '
   'ClassicalDedekindReals.sig_not_dec, FunctionalExtensionality.functional_extensionality_dep, Classical_Prop.classic',
-  'translator/py2coq.py + validators_tx / signatures_tx / classes_tx (Python-ast -> Gallina; when a source is outside the whitelist or the '
-  'proofs do not go through on the regenerated text, the committed snapshot translator/snapshots/*.v is used and tied to the code by the '
-  'probe correspondences of harness/probes.py - see coverage.translator_fallback)',
+  'translator/py2coq.py + the fifteen *_tx.py translators (Python-ast -> Gallina; kernels / validators / signatures: when the source is '
+  'outside the whitelist or the proofs do not go through on the regenerated text, the committed snapshot translator/snapshots/*.v is used '
+  'and tied to the code by the probe correspondences of harness/probes.py - see coverage.translator_fallback; the others degrade per '
+  'method to an alias of the hand model, listed under coverage.<file>_fallback_to_hand_model, and a regenerated text that breaks a proof '
+  'is compared with its snapshot by exact evaluation inside Coq, harness/genprobe.py) together with the hand-written semantics of the '
+  'Python / NumPy idioms they emit (coq/Model/*Ops.v)',
   'harness: case generators, float.as_integer_ratio conversion, Coq literal printer, tolerance 1e-9 (rel+abs)',
   'hand-written Gallina model of the NumPy plumbing (tied to the code only by the correspondence run)',
   'Python 3.12 / NumPy / SciPy semantics as exercised; IEEE rounding is outside the model',
